@@ -640,3 +640,80 @@ pub proof fn method_names_differ()
     assert("POST"@[0] == 'P' && "HEAD"@[0] == 'H');
     assert("PATCH"@[0] == 'P' && "TRACE"@[0] == 'T');
 }
+
+// ---- termination of HttpRouterIter::next: every turn of its loop that does not yield uses up one unit of this ----
+pub open spec fn tree_work<C: ServerContext>(n: HttpRouterNode<C>) -> nat
+    decreases n, 0nat
+{
+    1 + (match n.edges {
+        None => 0nat,
+        Some(HttpRouterEdges::Literals(m)) => lit_work(m, key_order(m@.dom())),
+        Some(HttpRouterEdges::VariableSingle(_, child)) => 1 + tree_work(*child),
+        Some(HttpRouterEdges::VariableRest(_, child)) => 1 + tree_work(*child),
+    })
+}
+pub open spec fn lit_work<C: ServerContext>(m: BTreeMap<String, Box<HttpRouterNode<C>>>, keys: Seq<String>) -> nat
+    decreases m, keys.len()
+{
+    if keys.len() == 0 { 0 }
+    else { (if m@.contains_key(keys[0]) { 1 + tree_work(*m@[keys[0]]) } else { 0 }) + lit_work(m, keys.skip(1)) }
+}
+pub open spec fn children_work<C: ServerContext>(s: Seq<(PathSegment, HttpRouterNode<C>)>) -> nat
+    decreases s.len()
+{
+    if s.len() == 0 { 0 } else { 1 + tree_work(s[0].1) + children_work(s.skip(1)) }
+}
+pub proof fn lit_work_is_children_work<C: ServerContext>(m: BTreeMap<String, Box<HttpRouterNode<C>>>, keys: Seq<String>)
+    requires forall|i: int| 0 <= i < keys.len() ==> m@.contains_key(#[trigger] keys[i]),
+    ensures lit_work(m, keys) == children_work(lit_children(m, keys)),
+    decreases keys.len()
+{
+    if keys.len() > 0 {
+        lit_work_is_children_work(m, keys.skip(1));
+        assert(lit_children(m, keys).skip(1) =~= lit_children(m, keys.skip(1)));
+        assert(lit_children(m, keys)[0] == (PathSegment::Literal(keys[0]), *m@[keys[0]]));
+    }
+}
+pub proof fn tree_work_unfold<C: ServerContext>(n: HttpRouterNode<C>)
+    ensures tree_work(n) == 1 + children_work(children(n))
+{
+    broadcast use ax_key_order;
+    match n.edges {
+        None => {}
+        Some(HttpRouterEdges::Literals(m)) => {
+            assert forall|i: int| 0 <= i < key_order(m@.dom()).len() implies m@.contains_key(#[trigger] key_order(m@.dom())[i]) by {
+                assert(key_order(m@.dom()).contains(key_order(m@.dom())[i]));
+            }
+            lit_work_is_children_work(m, key_order(m@.dom()));
+            assert(children(n) =~= lit_children(m, key_order(m@.dom())));
+        }
+        Some(HttpRouterEdges::VariableSingle(name, child)) => {
+            let s = children(n);
+            assert(s.len() == 1 && s[0].1 == *child);
+            assert(children_work(s.skip(1)) == 0);
+        }
+        Some(HttpRouterEdges::VariableRest(name, child)) => {
+            let s = children(n);
+            assert(s.len() == 1 && s[0].1 == *child);
+            assert(children_work(s.skip(1)) == 0);
+        }
+    }
+}
+pub open spec fn stack_work<'a, C: ServerContext>(p: Seq<(PathSegment, Box<PathIter<'a, C>>)>) -> nat
+    decreases p.len()
+{
+    if p.len() == 0 { 0 } else { 1 + children_work(prem(*p.last().1)) + stack_work(p.drop_last()) }
+}
+pub proof fn work_descend<'a, C: ServerContext>(q: Seq<(PathSegment, Box<PathIter<'a, C>>)>, p: Seq<(PathSegment, Box<PathIter<'a, C>>)>)
+    requires q.len() > 0, prem(*q.last().1).len() > 0,
+        p.len() == q.len() + 1, p.drop_last().drop_last() == q.drop_last(),
+        prem(*p.drop_last().last().1) == prem(*q.last().1).skip(1),
+        prem(*p.last().1) == children(prem(*q.last().1)[0].1),
+    ensures stack_work(p) + 1 == stack_work(q),
+{
+    let r0 = prem(*q.last().1);
+    tree_work_unfold(r0[0].1);
+    assert(stack_work(p) == 1 + children_work(children(r0[0].1)) + stack_work(p.drop_last()));
+    assert(stack_work(p.drop_last()) == 1 + children_work(r0.skip(1)) + stack_work(q.drop_last()));
+    assert(stack_work(q) == 1 + children_work(r0) + stack_work(q.drop_last()));
+}
